@@ -147,3 +147,694 @@ def merge_idiom_obs(ctx, fams, rule: str) -> List[Ob]:
 
 def helper_pairs_named(ctx, names: Set[str]) -> Set[str]:
     return names
+
+from . import rules_misc as RM
+from . import rules_classes as RC
+from .rules_kernelspec import (isi_spec, spike_spec, dist_at_t_spec, get_min_dist_spec, discrete_spec, written_extent,
+                               guarded_subscripts)
+
+
+# ---------------------------------------------------------------------------------------------
+# rule bundles
+# ---------------------------------------------------------------------------------------------
+def _sib(ctx, fams, rule='R12.2') -> List[Ob]:
+    """sibling agreement of the kernels of the given families and of the helpers they call"""
+    e = eng(ctx)
+    names = kernels_of(fams)
+    out = []
+    import ast as _ast
+    helper_names = set()
+    for f in fams:
+        if f is None:
+            continue
+        for k in (f.py, f.pyx, f.single):
+            if k is None:
+                continue
+            for n in _ast.walk(k.node):
+                if isinstance(n, _ast.Call) and isinstance(n.func, _ast.Name):
+                    helper_names.add(n.func.id)
+    for pyx, py, fam in e.all_pairs():
+        if fam is not None and (py.name in names or pyx.name in names):
+            out.extend(e.pair_obligations(pyx, py, rule, fam))
+        elif fam is None and (pyx.name in helper_names or py.name in helper_names):
+            out.extend(e.pair_obligations(pyx, py, rule, None))
+    return out
+
+
+def _proj(ctx, fams, rule='R05.2') -> List[Ob]:
+    from .rules_projection import projection_obligations
+    out = []
+    for f in fams:
+        if f is not None and f.single is not None:
+            out.extend(projection_obligations(eng(ctx), f, rule))
+    return out
+
+
+def _sigma(ctx, fams, rule='R07.1', modes=('sym', 'swap', 'anti')) -> List[Ob]:
+    return r07_1_symmetry(ctx, eng(ctx), rule, modes, only=kernels_of(fams))
+
+
+def _units_of(ctx, fams, rule='R08.1') -> List[Ob]:
+    names = kernels_of(fams)
+    allo = ctx.get('units', lambda c: r08_1_units(c, 'R08.1'))
+    out = []
+    for o in allo:
+        head = o.title.split(' ', 1)[0].split('.')[0]
+        nm = o.title.split(' ', 1)[0]
+        if fams is None or nm in names or head in names or nm.split('.')[-1] in ('get_tau', 'Interpolate', 'get_min_dist', 'get_min_dist_cython', 'dist_at_t') and _helper_used(ctx, fams, nm.split('.')[-1]):
+            out.append(Ob(rule, o.title, o.status, o.where, o.detail, o.key, o.construct, o.extra))
+    return out
+
+
+def _helper_used(ctx, fams, helper: str) -> bool:
+    import ast as _ast
+    for f in fams or []:
+        if f is None:
+            continue
+        for k in (f.py, f.pyx, f.single):
+            if k is None:
+                continue
+            for n in _ast.walk(k.node):
+                if isinstance(n, _ast.Call) and isinstance(n.func, _ast.Name) and n.func.id == helper:
+                    return True
+    return False
+
+
+def _ensure_helpers(ctx):
+    """helper adapters (extra length parameter of the compiled nearest-spike helper) are registered by the sibling run"""
+    e = eng(ctx)
+    if not getattr(e, '_adapters_ready', False):
+        e._adapters([], 'init')
+        e._adapters_ready = True
+    return e
+
+
+def _isi_rules(ctx) -> List[Ob]:
+    e = _ensure_helpers(ctx)
+    f = isi_family(ctx)
+    if f is None:
+        from .report import inconclusive
+        return [inconclusive('R01.1', 'ISI family (wrapper building a PieceWiseConstFunc from a kernel) found', 'pyspike/isi_distance.py')]
+    out = merge_idiom_obs(ctx, [f], 'R01.1')
+    out += isi_spec(e, f.py, True) + isi_spec(e, f.pyx, True)
+    if f.single is not None:
+        out += isi_spec(e, f.single, False)
+    for k in (f.py, f.pyx):
+        out += [Ob('R01.5', o.title, o.status, o.where, o.detail, o.key, o.construct, o.extra) for o in written_extent(e, k, 'R01.5', 1)]
+    out += _epilogue_trim(ctx, [f.py, f.pyx], 'R01.5')
+    out += _nonempty_aux(ctx)
+    return out
+
+
+def _nonempty_aux(ctx, rule='R01.6') -> List[Ob]:
+    """get_spikes_non_empty: an empty train is represented by exactly its two edges"""
+    import ast as _ast
+    from .report import ok, violation
+    fi = ctx.repo.func('pyspike.SpikeTrain', 'SpikeTrain.get_spikes_non_empty')
+    src = _ast.unparse(fi.node)
+    t = "SpikeTrain.get_spikes_non_empty: a train without spikes is represented by [t_start, t_end] (one interval spanning the recording); otherwise the spikes themselves"
+    ifs = [n for n in fi.node.body if isinstance(n, _ast.If)]
+    good = False
+    if len(ifs) == 1 and len(ifs[0].body) == 1 and isinstance(ifs[0].body[0], _ast.Return) and ifs[0].orelse:
+        test = _ast.unparse(ifs[0].test).replace(' ', '')
+        rv = _ast.unparse(ifs[0].body[0].value).replace(' ', '')
+        ev = _ast.unparse(ifs[0].orelse[0].value).replace(' ', '') if isinstance(ifs[0].orelse[0], _ast.Return) else ''
+        good = test in ('len(self.spikes)<1', 'len(self.spikes)==0') and '[self.t_start,self.t_end]' in rv and ev == 'self.spikes'
+    return [ok(rule, t, fi.loc(), construct='SpikeTrain.get_spikes_non_empty') if good else
+            violation(rule, t, fi.loc(), key='pyspike/SpikeTrain.py::get_spikes_non_empty::aux-edges', detail=src[:300])]
+
+
+def _epilogue_trim(ctx, kernels, rule) -> List[Ob]:
+    """after the scan: either the last breakpoint already is t_end (drop the duplicate) or t_end is appended"""
+    from .rules_kernelspec import _parts, _paths, _returned_names
+    from .report import ok, violation, inconclusive
+    from . import canon as C
+    e = eng(ctx)
+    out = []
+    for k in kernels:
+        pre, loop, post = _parts(k)
+        ret = _returned_names(k)
+        params = [a.arg for a in k.node.args.args]
+        te = C.atom(('n', params[3]))
+        try:
+            paths = _paths(e, k, [it for it in post if it[0] != 'return'])
+        except Exception as ex:
+            out.append(inconclusive(rule, f"{k.name}: epilogue paths", k.loc(), str(ex)))
+            continue
+        t = (f"{k.name} ({k.path}): after the scan the time axis ends with exactly one t_end: if the last emitted breakpoint equals t_end the "
+             f"running index steps back, otherwise t_end is stored at the running index")
+        good = len(paths) == 2
+        detail = f"{len(paths)} epilogue paths"
+        if good:
+            for env, stores, conds in paths:
+                tst = [r for key, r in stores if key == ret[0]]
+                idx = None
+                eqc = [c for c in conds if c[0] == 'cmp' and c[1] in ('eq', 'ne')]
+                if not eqc:
+                    good = False
+                    continue
+                is_eq = eqc[0][1] == 'eq'
+                cnt = [n for n in C.names_of(eqc[0][2]) if n not in (params[3], ret[0])]
+                if len(cnt) != 1:
+                    good = False
+                    continue
+                c = cnt[0]
+                want_cond = C.mk_cmp('eq', C.atom(('sub', ('n', ret[0]), C.sub(C.atom(('n', c)), C.ONE))), te)
+                if is_eq:
+                    good &= eqc[0] == want_cond and not tst and C.to_poly(env.get(c)) == C.sub(C.atom(('n', c)), C.ONE)
+                else:
+                    good &= C.mk_not(eqc[0]) == want_cond and len(tst) == 1 and tst[0][1] == C.atom(('n', c)) and tst[0][2] == te and \
+                        C.to_poly(env.get(c)) == C.atom(('n', c))
+                detail = f"cond {C.show(eqc[0])}"
+        out.append(ok(rule, t, k.loc(), construct=f"{k.path}::{k.name}::trim") if good else
+                   violation(rule, t, k.loc(), key=f"{k.path}::{k.name}::end-trim", detail=detail))
+    return out
+
+
+def _spike_rules(ctx) -> List[Ob]:
+    e = _ensure_helpers(ctx)
+    f = spike_family(ctx)
+    if f is None:
+        from .report import inconclusive
+        return [inconclusive('R02.1', 'SPIKE family found', 'pyspike/spike_distance.py')]
+    out = merge_idiom_obs(ctx, [f], 'R02.1')
+    for k in (f.py, f.pyx, f.single):
+        if k is None:
+            continue
+        out += spike_spec(e, k, k is not f.single)
+        mi = ctx.repo.module(k.module)
+        for hn in ('dist_at_t',):
+            if hn in mi.functions:
+                out += dist_at_t_spec(e, mi.functions[hn])
+        for hn in ('get_min_dist', 'get_min_dist_cython'):
+            if hn in mi.functions:
+                out += get_min_dist_spec(e, mi.functions[hn])
+    for k in (f.py, f.pyx):
+        out += [Ob('R02.7', o.title, o.status, o.where, o.detail, o.key, o.construct, o.extra) for o in written_extent(e, k, 'R02.7', 1)]
+    out += _epilogue_trim(ctx, [f.py, f.pyx], 'R02.7')
+    # de-duplicate helper obligations (same helper reached through several kernels)
+    seen, ded = set(), []
+    for o in out:
+        k_ = (o.rule, o.title, o.where, o.status)
+        if k_ in seen:
+            continue
+        seen.add(k_)
+        ded.append(o)
+    return ded
+
+
+def _discrete_rules(ctx, which=('sync', 'order', 'dir')) -> List[Ob]:
+    e = _ensure_helpers(ctx)
+    d = discrete_families(ctx)
+    out: List[Ob] = []
+    for kind in which:
+        f = d.get(kind)
+        if f is None:
+            from .report import inconclusive
+            out.append(inconclusive('R03.3', f"discrete family `{kind}` found", 'pyspike/cython'))
+            continue
+        for k in (f.py, f.pyx):
+            out += discrete_spec(e, k, kind)
+        if f.single is not None:
+            out += discrete_spec(e, f.single, kind + '1')
+    return out
+
+
+def _unreachable_info(ctx, rule='R18.6') -> List[Ob]:
+    from .report import info
+    e = eng(ctx)
+    used = {(s.compiled_module, s.compiled_symbol) for s in e.sites}
+    out = []
+    for f in ctx.repo.all_functions(pyx=True):
+        mi = ctx.repo.module(f.module)
+        if mi.pyx and f.name in mi.pyx.cdef_funcs:
+            continue
+        if (f.module, f.name) not in used:
+            out.append(info(rule, f"compiled routine `{f.name}` is imported by no dispatch site: not analysed as reachable code", f.loc()))
+    return out
+
+
+def _guarded_subscripts_all(ctx, rule='R18.2') -> List[Ob]:
+    e = eng(ctx)
+    used = {(s.compiled_module, s.compiled_symbol) for s in e.sites}
+    out = []
+    for f in ctx.repo.all_functions():
+        if f.module == 'pyspike.isi_lengths':
+            out += guarded_subscripts(f, rule, arrays={'spike_times'})
+        elif f.module.startswith('pyspike.cython'):
+            mi = ctx.repo.module(f.module)
+            if f.is_pyx and not (mi.pyx and f.name in mi.pyx.cdef_funcs) and (f.module, f.name) not in used:
+                continue        # unreachable compiled routine: reported as info (R18.6)
+            out += guarded_subscripts(f, rule)
+    return out
+
+
+def _extents_all(ctx, rule='R18.3') -> List[Ob]:
+    e = _ensure_helpers(ctx)
+    out = []
+    for f in e.families:
+        delta = 1
+        if f.wrapper.cls == 'DiscreteFunc':
+            delta = 0
+        for k in (f.py, f.pyx):
+            out += written_extent(e, k, rule, delta)
+    return out
+
+
+# ---------------------------------------------------------------------------------------------
+# the table
+# ---------------------------------------------------------------------------------------------
+def P(pid, level, rules, explanation, assumptions=(), min_instances=None):
+    PROPS[pid] = dict(level=level, rules=rules, explanation=explanation,
+                      assumptions=COMMON_ASSUMPTIONS + list(assumptions), min_instances=min_instances or {})
+
+
+NOT_DECIDED = " NOT decided (stated, not hidden): "
+
+P('C01', 'other',
+  [_isi_rules,
+   lambda c: _sib(c, [isi_family(c)], 'R12.2'),
+   lambda c: _proj(c, [isi_family(c)], 'R05.2'),
+   lambda c: _sigma(c, [isi_family(c)], 'R07.1'),
+   lambda c: _units_of(c, [isi_family(c)], 'R08.1')],
+  "Structural clauses of the ISI-profile definition, decided on all three copies of the ISI kernel (Python profile kernel, compiled "
+  "profile kernel, compiled single-pass kernel) per path of prologue / loop body / epilogue: R01.1 the cursor-merge idiom (lemma L1: "
+  "loop bound, strict three-way comparison, short-circuit order, exclusive guards, single increments); R01.2 exactly one breakpoint per "
+  "iteration = the spike just consumed; R01.3 value |v1-v2|/max(v1,v2,MRTS) over the updated intervals; R01.4 the four edge rules and the "
+  "interior rule against the documented table; R01.5 end trimming, written extent, len(x)=len(y)+1; R01.6 empty trains become the two "
+  "edges; plus sibling equality, projection of the single-pass kernel, train-swap symmetry and units typing of these kernels."
+  + NOT_DECIDED + "that the clauses compose to the definition on every interleaving (loop invariant over runtime index values).",
+  ["lemmas L1, L2 of DESIGN.md section 5"],
+  {'R01.1': 50, 'R01.3': 20, 'R01.4': 60, 'R01.2': 12, 'R12.2': 1, 'R05.2': 15, 'R07.1': 6})
+
+P('C02', 'other',
+  [_spike_rules,
+   lambda c: _sib(c, [spike_family(c)], 'R12.2'),
+   lambda c: _proj(c, [spike_family(c)], 'R05.2'),
+   lambda c: _sigma(c, [spike_family(c)], 'R07.1'),
+   lambda c: _units_of(c, [spike_family(c)], 'R08.1')],
+  "Structural clauses of the SPIKE-profile definition on the three copies of the SPIKE kernel and their helpers: R02.1 merge idiom; R02.2 "
+  "dist_at_t equals the documented plain / RI / adaptive formula (3 copies); R02.3 a shared spike time stores 0 on both sides; R02.5 auxiliary "
+  "spikes mirrored outside the edges; R02.6 shape of the nearest-spike helper and the role of every one of its call sites (other train, "
+  "other cursor, other auxiliary pair); R02.7 extent / end trimming; plus sibling equality (kernels and helpers), single-pass projection "
+  "(trapezoid template), train-swap symmetry (kernels, dist_at_t) and units typing - which together pin the linear interpolation terms of one "
+  "train to those of the other and of the other backend." + NOT_DECIDED +
+  "that restarting the nearest-spike search at the other train's cursor never misses the global minimum; the value between breakpoints.",
+  ["lemmas L1, L4"],
+  {'R02.1': 40, 'R02.2': 6, 'R02.3': 8, 'R02.5': 6, 'R02.6': 30, 'R12.2': 3, 'R07.1': 6, 'R05.2': 40})
+
+P('C03', 'other',
+  [lambda c: merge_idiom_obs(c, [discrete_families(c).get('sync')], 'R03.1'),
+   lambda c: _discrete_rules(c, ('sync',)),
+   lambda c: r03_2_strict_tests(c, 'R03.2'),
+   lambda c: r03_4_interpolate(c, 'R03.4'),
+   lambda c: r03_5_limit_derivation(c, 'R03.5'),
+   lambda c: r16_1_bounded_window(c, 'R16.1'),
+   lambda c: _sib(c, [discrete_families(c).get('sync'), discrete_families(c).get('single')], 'R12.2'),
+   lambda c: _proj(c, [discrete_families(c).get('sync')], 'R05.2'),
+   lambda c: _sigma(c, [discrete_families(c).get('sync')], 'R07.1', ('sym',)),
+   lambda c: _units_of(c, [discrete_families(c).get('sync'), discrete_families(c).get('single')], 'R08.1')],
+  "R03.1 merge idiom of the three coincidence kernels; R03.2 every coincidence test in the tree (all get_tau call sites) is the strict "
+  "`delta < tau` on exactly the two spikes handed to get_tau, conjoined with the cursor guard; R03.3 constants: tie = (2,2), coincidence marks "
+  "current and previous event, edge entries copy neighbours, empty-empty = (1,1); R03.4 Interpolate decided exactly on the 13 weak orderings of "
+  "its arguments (spec, monotone in MRTS, MRTS=0 gives min), both copies; R03.5 uniform limit derivation; R16.1 window bounded by limit/2; "
+  "sibling equality incl. the per-spike filter scan and get_tau; single-pass projection; train-swap symmetry with lemma L5; units."
+  + NOT_DECIDED + "mutual one-to-one coincidence, equal counts per train, agreement of the per-spike scan with the merged scan as values.",
+  ["lemmas L1, L4, L5"],
+  {'R03.1': 50, 'R03.2': 30, 'R03.3': 15, 'R03.4': 7, 'R03.5': 25, 'R16.1': 4})
+
+P('C04', 'other',
+  [lambda c: _discrete_rules(c, ('order', 'dir')),
+   lambda c: _sigma(c, [discrete_families(c).get('order'), discrete_families(c).get('dir')], 'R04.1', ('anti', 'swap')),
+   lambda c: [o for o in r14_2_index_kinds(c, 'R04.4', 'R06.1', 'R04.4') if o.rule == 'R04.4' and 'auto-threshold' not in o.key],
+   lambda c: r06_4_matrix_fills(c, 'R04.3'),
+   lambda c: _sib(c, [discrete_families(c).get('order'), discrete_families(c).get('dir')], 'R12.2'),
+   lambda c: _proj(c, [discrete_families(c).get('order'), discrete_families(c).get('dir')], 'R05.2'),
+   lambda c: only_rules(lambda cc: r03_2_strict_tests(cc, 'R04.5'), {'R04.5'})(c)],
+  "R04.1 train-swap antisymmetry as a proof by program symmetry: sigma(P) == -P for the order kernels, sigma(P) == P with the two per-spike "
+  "arrays exchanged for the directionality profile kernels (hence swapping the trains negates order profile and un-normalised directionality, "
+  "all inputs); R04.2 leader = +1 sign table in every branch of every copy; R04.3 matrix fill D[a,b] = d, D[b,a] = -d on zeros, entry = pair "
+  "function on (train a, train b); R04.4 index kinds of the per-spike accumulation and the matrix (position vs train id) and normalisation by "
+  "the selected count; R04.5 same strict coincidence test as SPIKE-Sync; sibling equality and projections."
+  + NOT_DECIDED + "the synfire-indicator identity and per-spike averages for N > 3 as numbers.",
+  ["lemmas L1, L5"],
+  {'R04.1': 8, 'R04.2': 25, 'R04.3': 6, 'R04.4': 8})
+
+P('C05', 'other',
+  [lambda c: r05_1_route_identity(c, 'R05.1'),
+   lambda c: _proj(c, eng(c).families, 'R05.2'),
+   lambda c: r18_1_guarded_divisions(c, 'R05.3', 'R05.4'),
+   lambda c: only_rules(lambda cc: r14_2_index_kinds(cc, 'R14.2', 'R05.5', 'R14.3'), {'R05.5'})(c),
+   lambda c: RM.r06_aggregation(c, 'R05.5', 'R05.5'),
+   lambda c: RC.avrg_spec(c, 'DiscreteFunc', 'R05.6') + RC.avrg_spec(c, 'PieceWiseConstFunc', 'R05.6') + RC.avrg_spec(c, 'PieceWiseLinFunc', 'R05.6')],
+  "R05.1 route identity: on the fallback and interval paths the scalar is literally `profile_function(same trains, same settings)."
+  "avrg/integral(interval)` of the same measure, and the compiled single-pass call receives the same argument roles as the profile "
+  "kernel; R05.2 each compiled single-pass kernel is a projection of the compiled profile kernel (state projection + integration "
+  "template per path); R05.3 every division by a pooled multiplicity / spike count is dominated by a zero test on the same variable; R05.4 "
+  "the zero alternative is the conventional literal (SPIKE-Sync of nothing = 1); R05.5 pair enumeration, divide-and-conquer slices, 1/M scaling, "
+  "pooled sums; R05.6 avrg of the three classes = integral / length (ratio with the empty convention for discrete profiles)."
+  + NOT_DECIDED + "exactness of integral() as numbers and pointwise exactness of add() - the multivariate equality composes those.",
+  [],
+  {'R05.1': 10, 'R05.2': 100, 'R05.3': 25, 'R05.5': 30})
+
+P('C06', 'other',
+  [lambda c: only_rules(lambda cc: r14_2_index_kinds(cc, 'R14.2', 'R06.1', 'R14.3'), {'R06.1'})(c),
+   lambda c: RM.r06_aggregation(c, 'R06.2', 'R06.3'),
+   lambda c: r06_4_matrix_fills(c, 'R06.4'),
+   lambda c: _sigma(c, [isi_family(c), spike_family(c), discrete_families(c).get('sync')], 'R06.5', ('sym',)),
+   lambda c: r18_1_guarded_divisions(c, 'R06.6', 'R06.6', modules={'pyspike.spike_sync', 'pyspike.generic', 'pyspike.spike_directionality'})],
+  "R06.1 all 7 pair comprehensions enumerate every unordered pair once (outer range complete, inner start exactly i+1, one kind per pair); "
+  "R06.2 divide-and-conquer splits into complementary slices, leaves evaluate pairs[0], halves combined by add; R06.3 1/M with M = number of "
+  "pairs for ISI/SPIKE, no rescaling for discrete profiles, mean / pooled ratio on the scalar routes; R06.4 matrices: zeros init, mirrored "
+  "entry, pair order, full SPIKE-Sync diagonal; R06.5 kernel symmetry makes each pair value independent of the order inside the pair; R06.6 the "
+  "pooled ratio tests the variable it divides by (order independence of the guard)."
+  + NOT_DECIDED + "independence of floating-point summation order; equality of the D&C sum to the mean at every time (needs C09 as values).",
+  [],
+  {'R06.1': 18, 'R06.2': 6, 'R06.3': 7, 'R06.4': 8, 'R06.5': 12})
+
+P('C07', 'other',
+  [lambda c: _sigma(c, eng(c).families, 'R07.1', ('sym',)),
+   lambda c: only_rules(lambda cc: _discrete_rules(cc, ('sync', 'order')), {'R07.3'})(c),
+   lambda c: only_rules(_isi_rules, {'R01.3'})(c),
+   lambda c: only_rules(lambda cc: r18_1_guarded_divisions(cc, 'R07.5', 'R07.5'), {'R07.5'})(c),
+   lambda c: only_rules(lambda cc: r_kernel_call_typestates(cc, ('', '', 'R07.2')), {'R07.2'})(c)],
+  "R07.1 train-swap symmetry of all ISI, SPIKE and SPIKE-Sync kernels (9 copies + helpers) as a proof by program symmetry: sigma(P) == P, so "
+  "f(a,b) and f(b,a) are the same computation, bit for bit, for all inputs; R07.2 wrappers pass both trains' arrays in parameter order with the "
+  "edges of a reconciled train; R07.3 every stored discrete entry lies between 0 (resp. -mp) and its multiplicity; R07.4 (=R01.3) the ISI value has "
+  "the |a-b|/max(a,b,.) shape with the same a, b; R07.5 empty-input conventions are literals behind zero tests."
+  + NOT_DECIDED + "SPIKE in [0,1], finiteness, d(x,x) = 0 and ranges after normalisation (value reasoning).",
+  ["lemmas L1, L4, L5"],
+  {'R07.1': 15, 'R07.3': 15, 'R01.3': 20})
+
+P('C08', 'other',
+  [lambda c: c.get('units', lambda cc: r08_1_units(cc, 'R08.1')),
+   lambda c: only_rules(lambda cc: RM.r15_4_threshold_definition(cc, 'R15.4', 'R08.2'), {'R08.2'})(c),
+   lambda c: _mirror_kernels(c),
+   lambda c: r03_5_limit_derivation(c, 'R08.3')],
+  "R08.1 proof by typing: every backend routine (both copies, helpers typed from their call sites), the methods of the three function classes and "
+  "isi_lengths.py type-check in the affine units system (Time = weight 1, Duration, Scalar); by lemma L6 a well-typed routine is invariant under "
+  "t -> lambda t + c with durations scaled by lambda: scalar outputs unchanged, time outputs transformed, every branch decision unchanged - the whole "
+  "first sentence of C08 over the reals; R08.2 the start-edge and end-edge rules of the ISI kernels, of the SPIKE auxiliary spikes and of isi_lengths are "
+  "images of each other under the reflection rho (computed on canonical terms); R08.3 the coincidence limit uses only t_end - t_start and 2 max_tau."
+  + NOT_DECIDED + "reversal covariance of the scan as a whole, sign flip of the order profile under reversal, floating-point effects.",
+  ["lemma L6 (typing implies invariance); input construction (SpikeTrain.__init__, generate_poisson_spikes) is outside the typed scope"],
+  {'R08.1': 100, 'R08.2': 8, 'R08.3': 25})
+
+P('C09', 'other',
+  [lambda c: r13_1_no_param_written(c, 'R09.1', modules={'pyspike.PieceWiseConstFunc', 'pyspike.PieceWiseLinFunc', 'pyspike.DiscreteFunc',
+                                                           'pyspike.cython.python_backend', 'pyspike.cython.cython_add'}),
+   lambda c: r09_2_ownership(c, 'R09.2', {'PieceWiseConstFunc', 'PieceWiseLinFunc', 'DiscreteFunc'}),
+   lambda c: kernel_results_fresh(c, 'R09.2', [k for f in eng(c).families if f.wrapper.cls for k in (f.py, f.pyx)]),
+   lambda c: merge_idiom_obs(c, [f for f in eng(c).families if f.wrapper.cls], 'R09.3'),
+   lambda c: [o for f in eng(c).families if f.wrapper.cls in ('PieceWiseConstFunc', 'PieceWiseLinFunc') for k in (f.py, f.pyx)
+              for o in written_extent(_ensure_helpers(c), k, 'R09.4', 1)],
+   lambda c: [o for o in RC.add_value_rules(c, _ensure_helpers(c), 'R09.5') if o.rule == 'R09.5'],
+   lambda c: RC.mul_scalar_spec(c, 'R09.6'),
+   lambda c: _sib(c, [f for f in eng(c).families if f.wrapper.cls in ('PieceWiseConstFunc', 'PieceWiseLinFunc')], 'R12.2'),
+   lambda c: _average_profile(c)],
+  "R09.1 no add kernel and no class method stores through an alias of an argument (interprocedural effect analysis, both backends): the added "
+  "operand is never modified, for all inputs and histories; R09.2 every array stored into an object is freshly allocated (copying constructor, "
+  "kernel results are views of arrays allocated in the kernel), copy() shares nothing: in-place scaling can never reach another object; R09.3 "
+  "add-merge idiom (strict comparisons, tie advances both: strictly increasing union of breakpoints); R09.4 written extent, slice-length agreement "
+  "of the tail copies, len(x)=len(y)+1; R09.5 value rules at a new breakpoint (sum of piece values; own value + linear interpolation of the other "
+  "operand); R09.6 mul_scalar / copy / constructor shapes; sibling equality of the add kernels; average_profile route."
+  + NOT_DECIDED + "pointwise equality and integral additivity as numbers; independence of the addition order up to rounding.",
+  ["lemma L3"],
+  {'R09.1': 30, 'R09.2': 15, 'R09.3': 40, 'R09.4': 20, 'R09.5': 15})
+
+P('C10', 'other',
+  [lambda c: RC.integral_spec(c, 'PieceWiseConstFunc', 'R10.1') + RC.integral_spec(c, 'PieceWiseLinFunc', 'R10.1'),
+   lambda c: RC.avrg_spec(c, 'PieceWiseConstFunc', 'R10.2') + RC.avrg_spec(c, 'PieceWiseLinFunc', 'R10.2') + RC.class_siblings(c, 'R10.2'),
+   lambda c: RC.call_spec(c, 'PieceWiseConstFunc', 'R10.3') + RC.call_spec(c, 'PieceWiseLinFunc', 'R10.3'),
+   lambda c: RC.plottable_spec(c, 'PieceWiseConstFunc', 'R10.4') + RC.plottable_spec(c, 'PieceWiseLinFunc', 'R10.4'),
+   lambda c: _units_classes(c, 'R10.5')],
+  "Per-path semantic tables (canonical forms, index searches kept as opaque np.searchsorted atoms): R10.1 integral: which search (side) bounds which "
+  "end, the `start > end` same-piece test, and the algebra of the three cases for constant and linear pieces (whole-piece sum + two partial pieces, "
+  "trapezoids over interpolated end values); R10.2 avrg = integral / length for none, one and several intervals, identical in both classes; R10.3 "
+  "__call__: edge limits, midpoint rule at interior breakpoints, piece value / interpolation, identically on the scalar and the sequence path; R10.4 "
+  "plottable arrays (length algebra and interleaving); R10.5 units: integrals are value x duration, averages and evaluations are values."
+  + NOT_DECIDED + "what np.searchsorted returns for each position of a, b (the rules pin the sides and the algebra around them, not its result); exactness as numbers.",
+  [],
+  {'R10.1': 6, 'R10.2': 7, 'R10.3': 14, 'R10.4': 5, 'R10.5': 10})
+
+P('C11', 'other',
+  [lambda c: merge_idiom_obs(c, [f for f in eng(c).families if f.wrapper.cls == 'DiscreteFunc'], 'R11.0'),
+   lambda c: [o for o in RC.add_value_rules(c, _ensure_helpers(c), 'R09.5') if o.rule == 'R11.1'],
+   lambda c: [o for f in eng(c).families if f.wrapper.cls == 'DiscreteFunc' for k in (f.py, f.pyx)
+              for o in written_extent(_ensure_helpers(c), k, 'R11.1x', 0)],
+   lambda c: RC.integral_spec(c, 'DiscreteFunc', 'R11.2'),
+   lambda c: RC.avrg_spec(c, 'DiscreteFunc', 'R11.3'),
+   lambda c: r13_1_no_param_written(c, 'R11.4', modules={'pyspike.DiscreteFunc'}) + r09_2_ownership(c, 'R11.4', {'DiscreteFunc'}),
+   lambda c: _sib(c, [f for f in eng(c).families if f.wrapper.cls == 'DiscreteFunc'], 'R12.2')],
+  "R11.0 add-merge idiom of the discrete add kernel (strict, tie advances both: one entry per distinct event time); R11.1 entry rules: tie sums "
+  "value and multiplicity, otherwise the advancing operand's (x, y, mp) triple is copied with one index, start-edge entry copies its neighbour, "
+  "extent and equal lengths of the three returned arrays; R11.2 integral: open-interval index selection (right/left), the same slice for values "
+  "and multiplicities, edges excluded without interval, several intervals add up; R11.3 avrg = ratio, 1 when nothing is inside; R11.4 operand purity "
+  "and ownership; sibling equality of the discrete add kernel."
+  + NOT_DECIDED + "the smoothing window of get_plottable_data (a value algorithm).",
+  ["lemma L3"],
+  {'R11.0': 20, 'R11.1': 15, 'R11.2': 4, 'R11.3': 3})
+
+P('C12', 'translation_validation',
+  [lambda c: r12_1_pairing(eng(c)), lambda c: r12_2_routines(eng(c)), lambda c: r12_3_projections(eng(c)),
+   lambda c: only_rules(lambda cc: r_kernel_call_typestates(cc, ('', '', '')), {'R12.4'})(c),
+   lambda c: only_rules(lambda cc: r05_1_route_identity(cc, 'R12.4'), {'R12.4'})(c),
+   lambda c: only_rules(lambda cc: r03_4_interpolate(cc, 'R12.5'), {'R12.5'})(c)],
+  "Translation validation between the two sources of every backend routine, from the parsed .pyx and .py files (Cython is not installed here, so "
+  "nothing can be executed on the compiled side). R12.1: the dispatch sites found by role pair existing symbols and setup.py builds every "
+  "imported/cimported extension; R12.2: each compiled routine and its fallback (10 kernel pairs + helper pairs) are equal after normalisation - "
+  "symbolic value numbering of straight-line regions, canonical polynomial forms, lifted element-wise stores, cursor facts from the verified merge "
+  "idiom (L1), last-ISI reuse (L2, premises checked), length relations of the function classes (L3); R12.3: each compiled single-pass kernel is the "
+  "compiled profile kernel with its output statements replaced by the integration template (state projection + per-path template); R12.4 the "
+  "single-pass call sites receive the same argument roles; R12.5 the two Interpolate spellings agree on all 13 weak orderings."
+  + NOT_DECIDED + "C-level semantics of the generated code, floating-point rounding.",
+  ["L3: value arrays of function objects are one shorter than (PWC/PWL) or as long as (Discrete) the breakpoint array",
+   "discrete single-pass kernels: an overwritten previous entry was 0 (coincidence is one-to-one; not decided statically)"],
+  {'R12.1': 20, 'R12.2': 14, 'R12.3': 100})
+
+P('C13', 'other',
+  [lambda c: r13_1_no_param_written(c, 'R13.1'),
+   lambda c: r13_2_reconcile_dominates(c, 'R13.2'),
+   lambda c: RM.r13_3_reconcile_shape(c, 'R13.3'),
+   lambda c: r_fresh_results(c, 'R13.3', [('pyspike.spikes', 'reconcile_spike_trains'), ('pyspike.spikes', 'reconcile_spike_trains_bi')]),
+   lambda c: r09_2_ownership(c, 'R13.4', {'SpikeTrain'})],
+  "R13.1 (fully decided, modulo the closed tables of copying / in-place operations): no function of the package - wrappers, classes, both "
+  "backends - stores through an alias of a parameter, calls an in-place method on one, or passes one to a callee that does: no input is ever "
+  "modified, for all inputs, call forms and backends; R13.2 on every route from a public entry point, trains are reconciled (by the function "
+  "itself or by the callee that uses them) before they reach a kernel call or the 'auto' threshold, the rebound names are what flows on, and "
+  "Reconcile=False is forwarded only after reconciling; R13.3 reconcile applies sort+dedup, global min/max edges, two-sided clipping and returns new "
+  "objects; R13.4 the SpikeTrain constructor copies." + NOT_DECIDED + "set-equality of reconciled and input spike times, the 1e-6 tolerance, idempotence as values.",
+  [],
+  {'R13.1': 100, 'R13.2': 40, 'R13.3': 6})
+
+P('C14', 'other',
+  [lambda c: r14_1_dispatchers(c, 'R14.1'),
+   lambda c: r14_2_index_kinds(c, 'R14.2', 'R06.1', 'R14.3'),
+   lambda c: r14_4_positional_binding(c, 'R14.4'),
+   lambda c: r14_5_keyword_flow(c, 'R14.5'),
+   lambda c: r06_4_matrix_fills(c, 'R14.6')],
+  "R14.1 the 8 var-args dispatchers agree: one list / several trains go to the same multivariate function, two trains to the bivariate function of "
+  "the same measure (same kernels reached), all keywords forwarded; R14.2 position-vs-train-id typing of every subscript derived from a pair list "
+  "(train list by id, per-selection containers by position); R14.3 normalisation by the selected count, 'auto' threshold from the selection; R14.4 every "
+  "tracked keyword passed positionally lands on the parameter of the same name (through functools.partial and function-valued parameters), explicit "
+  "keywords are fed from the same-named variable; R14.5 no tracked keyword in scope is dropped on the way to a callee that accepts it; R14.6 matrices "
+  "are filled at positions of the selection." + NOT_DECIDED + "numerical equality of results between call forms beyond route identity.",
+  [],
+  {'R14.1': 15, 'R14.2': 25, 'R14.4': 50, 'R14.5': 120})
+
+P('C15', 'other',
+  [lambda c: only_rules(lambda cc: r_kernel_call_typestates(cc, ('R15.1', '', '')), {'R15.1'})(c),
+   lambda c: RM.r15_2_mrts_sinks(c, eng(c), 'R15.2'),
+   lambda c: RM.r15_3_defaults(c, 'R15.3'),
+   lambda c: RM.r15_4_threshold_definition(c, 'R15.4', 'R08.2'),
+   lambda c: r03_4_interpolate(c, 'R15.5'),
+   lambda c: only_rules(lambda cc: r13_2_reconcile_dominates(cc, 'R15.6'), {'R15.6'})(c)],
+  "R15.1 typestate: the MRTS argument of every kernel call is the local that went through `isinstance(MRTS, str) -> default_thresh(all train "
+  "parameters)`, multivariate wrappers write the resolved value into kwargs after reconciling ('auto' == passing the threshold); R15.2 inside both "
+  "backends MRTS is read only in monotone sinks (a floor inside max(...) of a denominator, the Interpolate threshold); R15.3 defaults MRTS = 0, RI = "
+  "False in resolve_keywords and in every kernel; R15.4 the threshold is sqrt(sum(x^2)/len(x)) over the ISI lengths of every train, with the "
+  "documented edge rules (and their mirror relation) and the recording length for an empty train; R15.5 Interpolate is non-decreasing in its "
+  "threshold and equals min(a,b) at threshold 0 (13 weak orderings, both copies); R15.6 default_thresh only sees reconciled trains."
+  + NOT_DECIDED + "the composed monotonicity statements and the no-op region below every ISI as values.",
+  [],
+  {'R15.1': 15, 'R15.2': 18, 'R15.3': 20, 'R15.4': 8, 'R15.5': 7})
+
+P('C16', 'other',
+  [lambda c: r16_1_bounded_window(c, 'R16.1'),
+   lambda c: only_rules(lambda cc: r_kernel_call_typestates(cc, ('', 'R16.2', '')), {'R16.2'})(c),
+   lambda c: r03_5_limit_derivation(c, 'R16.3'),
+   lambda c: r03_2_strict_tests(c, 'R16.4'),
+   lambda c: _sib(c, [], 'R12.2') + [o for o in r12_2_routines(eng(c), only={'get_tau'}, rule='R12.2')]],
+  "R16.1 upper-bound abstract interpretation of both get_tau copies (inlining Interpolate, refining on comparisons): every returned window is at most "
+  "limit/2; R16.3 the limit is min(t_end - t_start, 2 max_tau) exactly when max_tau > 0 at all 11 derivation sites of all coincidence consumers "
+  "(SPIKE-Sync, order, directionality, filter) and is what get_tau receives; R16.4 every consumer applies the strict `delta < window` test - together: no "
+  "two spikes max_tau or more apart are coincident; R16.2 every kernel call has passed `if max_tau is None: max_tau = 0.0` and the number is only read by "
+  "the `> 0` test, so None, 0 and 0.0 take the same path; sibling equality of get_tau."
+  + NOT_DECIDED + "'enlarging max_tau never removes a coincidence' as a value statement (min is monotone in the cap by shape).",
+  [],
+  {'R16.1': 4, 'R16.2': 7, 'R16.3': 25, 'R16.4': 30})
+
+P('C17', 'other',
+  [lambda c: RM.r17_filter(c, 'R17.1', 'R17.2'),
+   lambda c: r13_1_no_param_written(c, 'R17.3', names={'filter_by_spike_sync', 'coincidence_single_python', 'coincidence_single_profile_cython'}),
+   lambda c: r_fresh_results(c, 'R17.3', [('pyspike.spike_sync', 'filter_by_spike_sync')]),
+   lambda c: [o for o in r13_2_reconcile_dominates(c, 'R17.3') if 'filter_by_spike_sync' in o.title],
+   lambda c: [o for o in r_kernel_call_typestates(c, ('R17.3', 'R17.3', 'R17.3'), only_funcs={'filter_by_spike_sync'}) if o.rule == 'R17.3'],
+   lambda c: _sib(c, [discrete_families(c).get('single')], 'R12.2'),
+   lambda c: [o for o in r03_2_strict_tests(c, 'R17.4') if 'coincidence_single' in o.title],
+   lambda c: [o for o in r03_5_limit_derivation(c, 'R17.4') if 'coincidence_single' in o.title]],
+  "R17.1 kept and removed masks are syntactic complements (`v > E` / `v <= E`) over canonically equal v and E on the same train, both wrapped in new "
+  "trains on the train's own interval; R17.2 the keep test is the strict `>` against threshold*(N-1), N = number of trains, and the count runs over all "
+  "N trains skipping exactly the train itself, adding the per-spike indicator of (this train, other train); R17.3 inputs untouched, result fresh, "
+  "reconcile first, MRTS resolved, max_tau converted; R17.4 the per-spike scan shares get_tau, the limit derivation and the strict test with the "
+  "profile kernels, and equals its compiled sibling." + NOT_DECIDED + "equality of the per-spike indicator with the multivariate profile value.",
+  [],
+  {'R17.1': 2, 'R17.2': 2, 'R17.3': 8, 'R17.4': 4})
+
+P('C18', 'other',
+  [lambda c: r18_1_guarded_divisions(c, 'R18.1', 'R05.4'),
+   _guarded_subscripts_all,
+   _extents_all,
+   lambda c: r_kernel_call_typestates(c, ('R15.1', 'R16.2', 'R18.4')),
+   lambda c: only_rules(lambda cc: _discrete_rules(cc, ('sync', 'order')), {'R18.5'})(c),
+   lambda c: _epilogue_trim(c, [k for f in (isi_family(c), spike_family(c)) if f for k in (f.py, f.pyx)], 'R18.5'),
+   _unreachable_info,
+   lambda c: _nonempty_aux(c, 'R18.4')],
+  "R18.1 every division by a pooled multiplicity or a spike count is dominated by a zero test on the same variable (all other divisors are "
+  "classified positive with a reason); R18.2 every constant subscript [1], [N-2], [-2] of a spike array is under `N > 1` for that train; R18.3 "
+  "written-extent analysis of the 10 kernels that allocate with np.empty: no unwritten cell is returned, returned lengths are related as the "
+  "classes require; R18.4 kernels that read element 0 unconditionally only receive get_spikes_non_empty(), the others the plain spikes; max_tau "
+  "is a number, MRTS is resolved (each otherwise a TypeError/IndexError on valid input); R18.5 time axis framed by t_start / t_end with the "
+  "duplicate end removed; R18.6 unreachable compiled code is listed, not trusted."
+  + NOT_DECIDED + "finiteness of values (no zero ISI for strictly increasing trains) and strict monotonicity of the emitted axis as numbers.",
+  [],
+  {'R18.1': 25, 'R18.2': 40, 'R18.3': 50, 'R18.4': 30, 'R18.5': 10})
+
+P('C20', 'other',
+  [lambda c: RM.r20_1_multiset(c, 'R20.1'),
+   lambda c: r13_1_no_param_written(c, 'R20.2', names={'merge_spike_trains', 'psth', 'generate_poisson_spikes'}),
+   lambda c: r_fresh_results(c, 'R20.2', [('pyspike.spikes', 'merge_spike_trains')])],
+  "R20.1 merge_spike_trains derives its spikes from the `.spikes` of every train of the list through concatenation and sorting only (no "
+  "de-duplicating, filtering or slicing operation on the path) and carries the first train's interval; psth pools every train before the histogram "
+  "call and uses bin_count+1 equally spaced edges from t_start to t_end; R20.2 neither function modifies its inputs, the merged train is fresh."
+  + NOT_DECIDED + "histogram counts, Poisson generation (random values), equal bin widths as numbers.",
+  [],
+  {'R20.1': 4, 'R20.2': 3})
+
+
+def _mirror_kernels(ctx, rule='R08.2') -> List[Ob]:
+    """rho-mirror of the ISI edge rules and of the SPIKE auxiliary spikes, on the values the kernels actually compute"""
+    from .rules_kernelspec import _parts, _paths, _returned_names
+    from .report import ok, violation, inconclusive
+    from . import canon as C
+    e = _ensure_helpers(ctx)
+    out: List[Ob] = []
+    # ---- ISI: prologue value (first spike after t_start) vs. end value after the last advance
+    f = isi_family(ctx)
+    for k in ([f.py, f.pyx, f.single] if f else []):
+        if k is None:
+            continue
+        roles, _ = e.roles_of(k)
+        if roles is None or not roles.ok:
+            out.append(inconclusive(rule, f"{k.name}: merge idiom (premise)", k.loc()))
+            continue
+        params = [a.arg for a in k.node.args.args]
+        s = {1: params[0], 2: params[1]}
+        N = {i: C.atom(('call', 'len', (C.atom(('n', s[i])),))) for i in (1, 2)}
+        rf = RM.Reflect(params[2], params[3], {s[1]: N[1], s[2]: N[2]})
+        pre, loop, post = _parts(k)
+        pro = _paths(e, k, pre)
+        seed = C.Env()
+        seed.call_adapters = e._adapters([], 'x')
+        seed.vals[roles.n1], seed.vals[roles.n2] = N[1], N[2]
+        lp = _paths(e, k, loop[2], seed)
+        for i, cur in ((1, roles.c1), (2, roles.c2)):
+            ts = C.atom(('n', params[2]))
+            first_c = C.mk_cmp('gt', C.atom(('sub', ('n', s[i]), C.ZERO)), ts)
+            # interval variable: assigned on the prologue path together with the cursor
+            start_vals = []
+            for env, st, conds in pro:
+                if first_c in conds:
+                    for nm, v in env.vals.items():
+                        if nm not in (roles.c1, roles.c2, roles.n1, roles.n2) and ('n', s[i]) in C.atoms_of(v) and C.single_atom(v) and C.single_atom(v)[0] == 'ifexp':
+                            start_vals.append((nm, v))
+            end_vals = []
+            cnew = C.add(C.atom(('n', cur)), C.ONE)
+            last_c = C.mk_not(C.mk_cmp('lt', cnew, C.sub(N[i], C.ONE)))
+            for env, st, conds in lp:
+                if last_c in conds:
+                    for nm, v in env.vals.items():
+                        if start_vals and nm == start_vals[0][0]:
+                            end_vals.append(C.subst_atoms(v, {('n', cur): C.sub(N[i], C.const(2))}))
+            t = f"{k.name} ({k.path}): train {i}: the last-interval rule is the mirror image (time reflection) of the first-interval rule"
+            if not start_vals or not end_vals:
+                out.append(inconclusive(rule, t, k.loc(), f"start={len(start_vals)} end={len(end_vals)}"))
+                continue
+            rs = rf.rho_dur(start_vals[0][1])
+            nm = start_vals[0][0]
+            # compiled spelling re-uses the previous interval (lemma L2): substitute it
+            l2 = C.sub(C.atom(('sub', ('n', s[i]), C.sub(N[i], C.ONE))), C.atom(('sub', ('n', s[i]), C.sub(N[i], C.const(2)))))
+            cands = {end_vals[0], C.subst_atoms(end_vals[0], {('n', nm): l2})}
+            if rs is not None and (rs in cands or any(RM._one_spike_equal(rs, c_, s[i], N[i]) for c_ in cands)):
+                out.append(ok(rule, t, k.loc(), construct=f"{k.path}::{k.name}::mirror::{i}"))
+            else:
+                out.append(violation(rule, t, k.loc(), key=f"{k.path}::{k.name}::isi-mirror::train{i}",
+                                     detail=f"rho(first rule) = {C.show(rs) if rs is not None else '?'}\nlast rule = {C.show(end_vals[0])}"))
+    # ---- SPIKE: r(lower auxiliary spike) == upper auxiliary spike
+    f = spike_family(ctx)
+    for k in ([f.py, f.pyx, f.single] if f else []):
+        if k is None:
+            continue
+        params = [a.arg for a in k.node.args.args]
+        pre, loop, post = _parts(k)
+        pro = _paths(e, k, pre)
+        env0, stores0, _c = pro[0]
+        aux = {}
+        for key, r in stores0:
+            if r[0] == 'store' and C.is_poly(r[1]) and C.is_const(r[1]) and key not in _returned_names(k):
+                aux.setdefault(key, {})[int(C.const_value(r[1]))] = r[2]
+        arrays = {}
+        for key, cells in aux.items():
+            for v in cells.values():
+                for a in C.atoms_of(v):
+                    if a[0] == 'sub' and a[1][0] == 'n':
+                        arrays[a[1][1]] = C.atom(('call', 'len', (C.atom(a[1]),)))
+        rf = RM.Reflect(params[2], params[3], arrays)
+        n_ok = 0
+        for key, cells in sorted(aux.items()):
+            if set(cells) != {0, 1}:
+                continue
+            t = f"{k.name} ({k.path}): `{key}`: the upper auxiliary spike is the mirror image (time reflection) of the lower one"
+            r = rf.r_time(cells[0])
+            if r is None:
+                sa = C.single_atom(cells[0])
+                if sa is not None and sa[0] == 'ifexp':
+                    a_, b_ = rf.r_time(sa[2]), rf.r_time(sa[3])
+                    r = C.atom(('ifexp', sa[1], a_, b_)) if a_ is not None and b_ is not None else None
+            if r is not None and r == cells[1]:
+                out.append(ok(rule, t, k.loc(), construct=f"{k.path}::{k.name}::aux-mirror::{key}"))
+                n_ok += 1
+            else:
+                out.append(violation(rule, t, k.loc(), key=f"{k.path}::{k.name}::aux-mirror::{key}",
+                                     detail=f"r(lower) = {C.show(r) if r is not None else '?'}\nupper = {C.show(cells[1])}"))
+    return out
+
+
+def _units_classes(ctx, rule) -> List[Ob]:
+    allo = ctx.get('units', lambda c: r08_1_units(c, 'R08.1'))
+    return [Ob(rule, o.title, o.status, o.where, o.detail, o.key, o.construct, o.extra) for o in allo
+            if o.title.startswith('PieceWiseConstFunc') or o.title.startswith('PieceWiseLinFunc')]
+
+
+def _average_profile(ctx, rule='R09.7') -> List[Ob]:
+    import ast as _ast
+    from .report import ok, violation
+    fi = ctx.repo.func('pyspike.DiscreteFunc', 'average_profile')
+    p = fi.node.args.args[0].arg
+    src = [s for s in fi.node.body if not (isinstance(s, _ast.Expr) and isinstance(s.value, _ast.Constant))]
+    txt = [_ast.unparse(s).replace(' ', '') for s in src]
+    good = any(t.endswith(f"={p}[0].copy()") for t in txt) and any(t.startswith(f"foriinrange(1,len({p})):") and f".add({p}[i])" in t for t in txt) \
+        and any(f".mul_scalar(1.0/len({p}))" in t for t in txt)
+    t = "average_profile: a copy of the first profile, plus every other profile, scaled by 1/len(profiles)"
+    return [ok(rule, t, fi.loc(), construct='average_profile') if good else
+            violation(rule, t, fi.loc(), key='pyspike/DiscreteFunc.py::average_profile::route', detail='; '.join(txt)[:300])]
